@@ -1,6 +1,150 @@
+import GrafeoModel.Model.TxConc
+import GrafeoModel.Model.EdgeConc
 import GrafeoModel.Driver.Proto
-/-! stream `conc2` (stub; replaced by its builder) -/
+
+/-! Stream `conc2`: the transaction manager (and edge operations) under a forced interleaving
+(C20). Stateless lines: `conc2 tx <progs> <sched>`, `conc2 tx.inv <progs> <sched>`. -/
 open Grafeo Grafeo.Proto
 namespace DriverConc2
-def handle (_args : List String) : Option Out := none
+open Grafeo.TxMgr Grafeo.TxConc
+
+def parseIso : Nat → Option Iso
+  | 0 => some .readCommitted
+  | 1 => some .snapshot
+  | 2 => some .serializable
+  | _ => none
+
+def nums (r : List Char) : Option (List Nat) := ((String.ofList r).splitOn ".").mapM (·.toNat?)
+
+def parseTOp (s : String) : Option COp :=
+  match s.toList with
+  | ['g'] => some .gc
+  | ['e'] => some .advance
+  | 'b' :: r => match nums r with
+    | some [v, i] => (parseIso i).map (.begin v)
+    | _ => none
+  | 'w' :: r => match nums r with
+    | some [v, e] => some (.write v e) | _ => none
+  | 'r' :: r => match nums r with
+    | some [v, e] => some (.read v e) | _ => none
+  | 'c' :: r => match nums r with
+    | some [v] => some (.commit v) | _ => none
+  | 'a' :: r => match nums r with
+    | some [v] => some (.abort v) | _ => none
+  | _ => none
+
+def parseTProgs (s : String) : Option (List (List COp)) :=
+  (s.splitOn ";").mapM (fun p => if p == "-" || p == "" then some [] else (p.splitOn ",").mapM parseTOp)
+
+/-- an answer as the harness prints it; `adv` tells `advance_epoch` (prints `e<n>`) from `gc` -/
+def showOut (adv : Bool) : TxMgr.Out → String
+  | .id x => toString x
+  | .flag b => if b then "ok" else "err"
+  | .commit (.ok e) => s!"ok:{e}"
+  | .commit .invalid => "err:invalid"
+  | .commit .writeConflict => "err:conflict"
+  | .commit .serFail => "err:serialization"
+  | .count n => if adv then s!"e{n}" else toString n
+
+def showEv (keys : List Nat) (useSeq : Bool) (ev : Ev) : String :=
+  let adv := ev.op == .advance
+  if useSeq then
+    match ev.sout with
+    | .id p => match keys[p]? with
+      | some x => toString x
+      | none => "?"
+    | o => showOut adv o
+  else showOut adv ev.cout
+
+def showThreads (n : Nat) (keys : List Nat) (useSeq : Bool) (log : List Ev) : String :=
+  joinWith ";" ((List.range n).map (fun i =>
+    let rs := (log.filter (fun ev => ev.thread == i)).map (showEv keys useSeq)
+    if rs.isEmpty then "-" else joinWith "," rs))
+
+def showMgr (next : Nat) (keys : List Nat) (m : Mgr) : String :=
+  let states := String.join ((List.range next).map (fun id =>
+    match m.get (keys.idxOf id) with
+    | none => "-"
+    | some t => match t.state with
+      | .active => "A" | .committed => "C" | .aborted => "X"))
+  s!"epoch={m.epoch} min={m.minActiveEpoch} active={m.activeCount} txs={if states == "" then "-" else states}"
+
+def distinct : List Nat → Bool
+  | [] => true
+  | x :: xs => !xs.contains x && distinct xs
+
+def handleTx (kind progs sched : String) : Option Proto.Out := do
+  let progs ← parseTProgs progs
+  let sched ← parseNatList sched
+  let fuel := 2 * (progs.map List.length).sum + 2
+  let st := finishAll fuel (runSched (init progs) sched)
+  if kind == "tx" then
+    -- the specification: the sequential manager run on the calls in linearisation order
+    let sq := srun (st.log.map (·.op))
+    let seqLog := (st.log.zip sq.2).map (fun p => { p.1 with sout := p.2 })
+    let model := s!"res={showThreads st.threads.length st.keys false st.log} {showMgr st.next st.keys st.m}"
+    let spec := s!"res={showThreads st.threads.length st.keys true seqLog} {showMgr st.next st.keys sq.1}"
+    pure { model := model, spec := spec, sig := if model == spec then "-" else "tx-not-linearizable" }
+  else if kind == "tx.inv" then
+    let ok := distinct (st.log.filterMap evBeginId) && distinct (st.log.filterMap evEpoch)
+    let v := if ok then "ok" else "torn"
+    pure { model := v, spec := "ok", sig := if ok then "-" else "tx-ids-or-epochs-repeat" }
+  else none
+
+/-! ### `conc2 edge` -/
+
+def parseEOp (s : String) : Option EdgeConc.COp :=
+  match s.toList with
+  | 'c' :: r => match nums r with
+    | some [a, b] => some (.create a b) | _ => none
+  | 'd' :: r => match nums r with
+    | some [e] => some (.delEdge e) | _ => none
+  | 'n' :: r => match nums r with
+    | some [n] => some (.delNode n) | _ => none
+  | _ => none
+
+def parseEProgs (s : String) : Option (List (List EdgeConc.COp)) :=
+  (s.splitOn ";").mapM (fun p => if p == "-" || p == "" then some [] else (p.splitOn ",").mapM parseEOp)
+
+def insertPair (x : Nat × Nat) : List (Nat × Nat) → List (Nat × Nat)
+  | [] => [x]
+  | y :: ys => if x.2 < y.2 || (x.2 == y.2 && x.1 ≤ y.1) then x :: y :: ys else y :: insertPair x ys
+
+def showAdj (l : List (Nat × List (Nat × Nat))) : String :=
+  joinWith ";" (l.map (fun kv => s!"{kv.1}:{joinWith "," ((kv.2.foldr insertPair []).map (fun p => s!"{p.1}.{p.2}"))}"))
+
+def showView (v : EdgeConc.View) : String :=
+  let es := joinWith ";" (v.edges.map (fun e => s!"{e.1}:{e.2.1}>{e.2.2}"))
+  s!"edges={if es == "" then "-" else es} fwd={showAdj v.fwd} bwd={showAdj v.bwd} nodes={if v.nodes.isEmpty then "-" else natList v.nodes}"
+
+def showERes (rs : List (List Nat)) : String :=
+  joinWith ";" (rs.map (fun r => if r.isEmpty then "-" else natList r))
+
+def handleEdge (kind n0 progs sched : String) : Option Proto.Out := do
+  let n0 ← n0.toNat?
+  let progs ← parseEProgs progs
+  let sched ← parseNatList sched
+  let fuel := 6 * (progs.map List.length).sum + 6
+  let st := EdgeConc.finishAll fuel (EdgeConc.runSched (EdgeConc.init n0 progs) sched)
+  let ok := EdgeConc.consistent st.store
+  if kind == "edge" then
+    -- the specification: every call in one piece, in linearisation order
+    let sq := EdgeConc.replay (EdgeConc.initStore n0) st.log
+    let seqRes := (List.range st.threads.length).map (fun i =>
+      ((st.log.zip sq.2).filter (fun p => p.1.thread == i)).map (·.2))
+    let model := s!"res={showERes (st.threads.map (·.results))} {showView (EdgeConc.view st.store (n0 + 1))}"
+    let spec := s!"res={showERes seqRes} {showView (EdgeConc.view sq.1 (n0 + 1))}"
+    pure { model := model, spec := spec, sig := if model == spec then "-" else "edge-adjacency-torn" }
+  else if kind == "edge.inv" then
+    let v := if ok then "ok" else "torn"
+    pure { model := v, spec := "ok", sig := if ok then "-" else "edge-adjacency-torn" }
+  else none
+
+def handle (args : List String) : Option Proto.Out :=
+  match args with
+  | [kind, progs, sched] =>
+    if kind == "tx" || kind == "tx.inv" then handleTx kind progs sched else none
+  | [kind, n0, progs, sched] =>
+    if kind == "edge" || kind == "edge.inv" then handleEdge kind n0 progs sched else none
+  | _ => none
 end DriverConc2
